@@ -7,11 +7,22 @@ ENGINES = {
     },
 }
 
+ENGINES["promsim"] = {
+    "real": ["capnp.Promise / Answer / Future / pipelineClient (answer.go) and capnp.Client (capability.go), mechanically instrumented"],
+    "stub": ["PipelineCaller and result-capability ClientHooks (instrumented recorders)", "scheduler (simrt baton in a testing/synctest bubble)"],
+}
+
 RULE_SCHED = ("each run is one seeded schedule+workload drawn from the choice tape; a run is non-trivial if it had at least one "
               "preemptive context switch or fired fault; distinct = distinct hashes of the full decision trace (schedule choices, "
               "fired faults, fired events) among non-trivial runs")
 
 CHECKS = {
+    "C11": {
+        "engine": "promsim", "level": "exploration",
+        "budget": {"quick": 25, "thorough": 600},
+        "rule": RULE_SCHED,
+        "faults": ["ctx_precancelled"],
+    },
     "C10": {
         "engine": "capsim", "level": "exploration",
         "budget": {"quick": 25, "thorough": 600},
